@@ -1036,7 +1036,8 @@ def replay_case(ctx, exe, data):
 
 MANIFEST = dict(
     technique="Lean 4 theorems on executable models of gammas() / read_species' model selection / the Pitzer-SIT sums; a source "
-              "translator (tools/gen_pitzer.py -> Gen/GammaSrc.lean) pins the modelled statements; per-species differential "
+              "translator (tools/gen_pitzer.py: clang AST + symbolic execution -> Gen/GammaSrc.lean) regenerates the data-flow normal "
+              "form (operator tree per stored quantity) of the modelled functions; per-species differential "
               "correspondence (friend harness + BASIC read-outs), in-process comparison of pitzer()/sit() on random inputs, and "
               "thermodynamic oracles (integrated Gibbs-Duhem, water activity) on real outputs",
     text="Theorems (Properties/C16.lean): the model-selection rule is total and exclusive; log gamma = 0 at I = 0 and depends on z "
@@ -1046,15 +1047,18 @@ MANIFEST = dict(
          "composition and direction, sum m_k d(LGAMMA_k) = d(2 OSMOT) on dual numbers over Q, under explicit hypotheses (2I = sum m z^2, "
          "electroneutrality with MacInnes, sqrt I ^2 = I, derivative rules of sqrt/ln, d g = GP/I dI, exp = G + GP, d Etheta = Etheta' dI); "
          "virial_gibbs_duhem for the constant-coefficient part without those hypotheses; G + GP = exp(-x) for the coded G, GP; "
-         "a_w = exp(-sum m phi / 55.50837) and cosmot = 1 + 2 OSMOT / OSUM; *_as_modelled: the statements of pitzer(), G, GP, ETHETAS, "
-         "calc_pitz_param, pitzer_tidy, sit(), calc_sit_param, gammas(), read_species in the current source are the ones the models "
-         "transcribe (regenerated every run, proved by rfl). Obligation over generated data: reported LG = Float model at reported MU, "
+         "a_w = exp(-sum m phi / 55.50837) and cosmot = 1 + 2 OSMOT / OSUM; *_as_modelled: the operator trees of the quantities stored by "
+         "pitzer(), G, GP, ETHETAS, calc_pitz_param, pitzer_tidy, sit(), calc_sit_param, gammas(), read_species in the current source "
+         "(locals / hoisted sub-expressions / named constants / one-line static helpers inlined, branches as guards, loops as folds, "
+         "statement order irrelevant) are the ones the models transcribe (regenerated every run, proved by rfl). Obligation over generated data: reported LG = Float model at reported MU, "
          "DH_A, DH_B (1e-9) for every species of every solution, with parameters from the engine and, independently, from this "
          "module's parse of the database text. Correspondence: pitzer()/sit() arrays vs Model/Pitzer (1e-9) after real solutions and "
          "on random molalities / temperatures / pressures (patm > 1 branch) / parameter values / SIT epsilon1 and neutral pairs; the "
          "engine's a[0..5] table vs this module's parse of the PITZER / SIT blocks (exact). Oracles: integrated Gibbs-Duhem (1e-4) and "
          "a_w (1e-5) on pitzer.dat, sit.dat, frezchem.dat, ColdChem.dat, pitzer.dat+Concrete_PZ.dat.",
-    note="Trusted: Lean kernel, harness/ph_gamma.cpp (friend access, BASIC callback), tools/gen_pitzer.py (statement extraction), the "
+    note="Trusted: Lean kernel, harness/ph_gamma.cpp (friend access, BASIC callback), tools/gen_pitzer.py (clang-14 AST, symbolic "
+         "execution into normal forms; the correspondence between a normal form and the Lean definition it documents is by reading, the "
+         "numerical correspondence checks it), the "
          "Python parser/diff/quadrature in tools/props/c16.py. Partial: the derivative relations between g, g', J, J' are hypotheses of "
          "pitzer_gibbs_duhem (on real outputs they are covered by the numerical Gibbs-Duhem oracle); J, J' (ETHETA_PARAMS) and the "
          "alpha values enter the model as numbers read from the engine; the theorem is for patm <= 1 (the pressure branch is modelled "
